@@ -376,6 +376,12 @@ func filterMerge(ctx stick.Context, val stick.Value, args ...stick.Value) stick.
 		if outMap == nil {
 			outMap = make(map[string]stick.Value)
 		}
+		// The result is a new hash; the operand itself must stay as it is.
+		merged := make(map[string]stick.Value, len(outMap))
+		for k, v := range outMap {
+			merged[k] = v
+		}
+		outMap = merged
 		argMap, ok := args[0].(map[string]stick.Value)
 
 		if ok {
